@@ -36,7 +36,7 @@ pub fn fld(name: &str, lo: u32, w: u32, ty: FieldTy, access: Access) -> Field {
 }
 
 pub fn lay(bits: u32, fields: Vec<Field>) -> Layout {
-    Layout { name: "S".into(), base_bits: bits, default: None, default_colon: false, debug: false, fields, enums: vec![], inners: vec![], debug_first: false, vis: 0, decoys: 0, derives: 0, handwritten: 0 }
+    Layout { name: "S".into(), base_bits: bits, default: None, default_colon: false, debug: false, fields, enums: vec![], inners: vec![], debug_first: false, vis: 0, decoys: 0, derives: 0, handwritten: 0, macro_wrap: 0 }
 }
 
 pub fn uty(w: u32) -> FieldTy {
@@ -597,7 +597,7 @@ pub fn sys_long_lists() -> Vec<Layout> {
         zero_pad: false,
     };
     // (base, number of entries, entry width, distance between entry starts, first start)
-    for (b, n, ew, dist, first) in [(64u32, 16u32, 1u32, 4u32, 0u32), (32, 16, 1, 2, 1), (128, 32, 1, 4, 3), (128, 64, 1, 2, 0), (128, 64, 1, 2, 1), (128, 16, 4, 8, 0), (100, 32, 1, 3, 2), (65, 16, 2, 4, 1), (128, 8, 8, 16, 8), (64, 32, 1, 2, 0)] {
+    for (b, n, ew, dist, first) in [(64u32, 16u32, 1u32, 4u32, 0u32), (32, 16, 1, 2, 1), (128, 32, 1, 4, 3), (128, 64, 1, 2, 0), (128, 64, 1, 2, 1), (128, 16, 4, 8, 0), (100, 32, 1, 3, 2), (65, 16, 2, 4, 1), (128, 8, 8, 16, 8), (64, 32, 1, 2, 0), (64, 16, 1, 1, 5), (32, 8, 1, 1, 3), (128, 32, 1, 1, 40), (128, 64, 1, 1, 64), (24, 8, 1, 1, 9), (16, 8, 1, 1, 8)] {
         let w = n * ew;
         let asc: Vec<(u32, u32)> = (0..n).map(|k| (first + k * dist, first + k * dist + ew - 1)).collect();
         if asc.last().unwrap().1 >= b {
